@@ -44,6 +44,7 @@ def check_program(prog, st, tag=""):
         st.count(c)
     try:
         gs, table_s = model.source_graph(prog)
+        stats = gs.reachable_stats()  # full traversal: raises OpFreeCycle if the SOURCE has a reachable op-free cycle
         npaths = model.count_paths(gs, 50)
     except model.OpFreeCycle:
         st.count("discard_op_free_cycle")
@@ -68,7 +69,6 @@ def check_program(prog, st, tag=""):
         fails.append(Failure("output_op_free_cycle", f"compiled ops contain a Jump-only cycle\n{text}"))
         return fails, comp, gs
     st.add("paths_pairs", pairs)
-    stats = gs.reachable_stats()
     if stats["tests"] >= 1 and npaths >= 2:
         st.mark_nontrivial(prog)
         st.add("disagreements_checked", 0)
